@@ -637,6 +637,7 @@ func GenRobustnessScript(t *rapid.T, thorough bool) *Script {
 	o.MaxWorkloads = 5
 	s := GenScript(t, "C10", "malformed-objects", o)
 	s.Config.FullHierarchyFairness = chance(t, "fullfair", 70)
+	s.Config.CSIStorage = chance(t, "csistorage", 30)
 	s.World.Nodes = append(s.World.Nodes, NodeSpec{Name: "nw", CPUm: 4000, MemMi: 8192, Pods: 20, GPUs: 1, Labels: map[string]string{"witness": "true"},
 		Taints: []TaintSpec{{Key: "witness", Value: "true", Effect: "NoSchedule"}}})
 	parent := ""
